@@ -55,7 +55,7 @@ type fn struct {
 	// translated: the then-branch of `if … && len(x) > 0 && … { … }` when x is a plain local
 	// variable that the branch never assigns, so x[0] is in range there.
 	nonEmpty []*types.Var
-	labels map[string]bool
+	labels   map[string]bool
 	// madeMaps: map-typed expressions (printed) this function visibly made non-nil
 	madeMaps map[string]bool
 	// flowInsensitive: the body uses goto / labelled branches; nothing is tracked, every loop
